@@ -214,6 +214,25 @@ def _hit(i, j):
     return Max(i.info[j].s, i.qs) < Min(i.info[j].e, i.qe)
 
 
+class QueryStrictEndToEnd(QueryExpand):
+    """query_by_position(start, end, completely_within=True) end to end: exactly the members lying wholly inside the
+    range are kept, and the result's bounds are the queried range itself."""
+    name = "AnnotationCollection.query_by_position[strict, end to end: members wholly inside, bounds = the range]"
+    call = ("(lambda r: (r.start, r.end, [g.gene_id for g in r.genes], [c.feature_collection_id for c in r.feature_collections]))"
+            "(col.query_by_position(qs, qe, completely_within=True))")
+    ensures = {
+        "bounds-are-the-queried-range": lambda i, r: And(r[0] == i.qs, r[1] == i.qe),
+        "gene-kept-iff-wholly-inside": lambda i, r: And(
+            len(r[2]) <= 1, _inside(i, 0) if len(r[2]) == 1 else Not(_inside(i, 0)), list(r[2]) in ([], ["g0"])),
+        "feature-collection-kept-iff-wholly-inside": lambda i, r: And(
+            len(r[3]) <= 1, _inside(i, 1) if len(r[3]) == 1 else Not(_inside(i, 1)), list(r[3]) in ([], ["fc"])),
+    }
+
+
+def _inside(i, j):
+    return And(i.qs <= i.info[j].s, i.info[j].e <= i.qe)
+
+
 class ChildrenOrderOnChunk(Case):
     """children / iteration order of a collection whose members (and the collection itself) are built on a sequence
     chunk of either strand with ANY window (cutting members, missing them, reverse strand): ordered by CHROMOSOME
@@ -312,5 +331,5 @@ ChildrenOrder.tier = "quick"  # 0.6 s since the overlap callee contract
 K3 = ("coding", "noncoding", "feature")
 CASES = [QueryByPosition(True, ("coding", "feature")), QueryByPosition(False, ("coding", "feature")),
          QueryByPosition(True, ("noncoding", "coding")), QueryByPosition(False, ("mixed", "noncoding")),
-         QueryByPosition(True, K3), QueryByPosition(False, K3), QueryValidation(), ChildrenOrder(), ChildrenOrderOnChunk(), QueryExpand(),
+         QueryByPosition(True, K3), QueryByPosition(False, K3), QueryValidation(), ChildrenOrder(), ChildrenOrderOnChunk(), QueryExpand(), QueryStrictEndToEnd(),
          QueryByPosition(False, ("split", "feature")), QueryByPosition(True, ("split", "feature")), IdQueryBounds()]
